@@ -17,6 +17,8 @@ func tapeErr(pj *simdjson.ParsedJson, o ref.TapeOpts) error {
 	return ref.CheckTape(pj.Tape, ns, len(pj.Message), o)
 }
 
+var c17Sess = &parseSession{}
+
 func c17Body(w *W) {
 	check := func(harness string, text []byte, nd bool) {
 		w.res.Evaluations++
@@ -41,6 +43,31 @@ func c17Body(w *W) {
 			}
 			return "", ""
 		})
+		if nd {
+			return
+		}
+		// the same document once more WITHOUT options into an object last used in no-copy mode:
+		// copying is the default, so every string entry must carry the string-buffer flag
+		if _, err, p := c17Sess.parse(Cfg{hasAVX512, false}, text, false); err != nil || p != "" {
+			return
+		}
+		pj, err, p := c17Sess.parseDefaultScribbled(hasAVX512, text)
+		w.res.Validated++
+		if err != nil || p != "" || pj == nil {
+			return
+		}
+		for i := 0; i < len(pj.Tape); i++ {
+			switch byte(pj.Tape[i] >> 56) {
+			case '"':
+				if pj.Tape[i]&simdjson.STRINGBUFBIT == 0 {
+					w.Violate(Violation{Harness: harness, Fingerprint: "C17/format/copybit-after-nocopy", What: fmt.Sprintf("parsed without options into an object last used in no-copy mode: entry %d is a string that is not in the string buffer", i), Case: append([]byte(nil), text...), Config: "default-options-after-nocopy"})
+					return
+				}
+				i++
+			case 'l', 'u', 'd':
+				i++
+			}
+		}
 	}
 	forEachStdDoc(w, func(name string, text []byte) { check("C17-"+name, text, false) })
 	forEachNDInput(w, func(name string, text []byte) {
